@@ -294,6 +294,7 @@ def run(job, streams=None):
                        and not info["resumed_wire"],
                        "resumed_conn": bool(info["resumed_wire"]), "fl": fl,
                        "resumed_via": info.get("mech"),
+                       "client_invalidated": not sess.resumable,
                        "end": end}
                 if info["resumed_wire"] and offer:
                     # a resumed connection carries the original's identity
@@ -435,6 +436,10 @@ def judge_attempt(info, offer, S, mods, sname, v, probes, srv):
     if sname != offer["server"]:
         reasons.append("foreign")
         probes["foreign"] = 1
+    if offer.get("client_invalidated"):
+        # the client's own Session object was invalidated by a fatal alert it
+        # received: it must not be offered, let alone resumed
+        reasons.append("client session invalidated by a fatal error")
     if offer["tampered"] and offer["tampered"] == mech:
         # only the tampered element counts: a client may drop an (expired)
         # tampered ticket and legitimately offer the intact session ID
